@@ -146,7 +146,7 @@ fn check(px: &[[f32; 3]], acc: &mut Acc) -> Result<(), String> {
 }
 
 pub fn c17(ctx: &Ctx) {
-    let total: u64 = ctx.arg_u64("pixels").unwrap_or(if ctx.flag("lite") { 1 << 22 } else { ctx.pick(1 << 26, 1 << 31) });
+    let total: u64 = ctx.arg_u64("pixels").unwrap_or(if ctx.flag("lite") { 1 << 22 } else { ctx.pick(1 << 26, 1 << 32) });
     let chunk: u64 = 65_521;
     let distinct = Distinct::new(ctx.pick(29, 33));
     let glob = Mutex::new(Acc { h: Worst::new(), s: Worst::new(), l: Worst::new(), rt: Worst::new(), range_bad: [0; 4], first_range_bad: None, sext: [0; 7] });
